@@ -388,6 +388,14 @@ class Kernel:
         _common._wn.cache_clear()
         if hasattr(_common.supports_ipv6, "cache_clear"):
             _common.supports_ipv6.cache_clear()
+        # ... and every other memoized function of these modules, whatever it is called (a change under test may add one)
+        for m in (_common, _pslinux, _psposix):
+            for name, v in list(vars(m).items()):
+                if callable(v) and not isinstance(v, type) and callable(getattr(v, "cache_clear", None)) and getattr(v, "__module__", None) == m.__name__:
+                    try:
+                        v.cache_clear()
+                    except Exception:  # noqa: BLE001
+                        pass
 
     @staticmethod
     def clamp(v, lo, hi):
